@@ -11,6 +11,8 @@ COMMON_ASSUMPTIONS = [
     "Message.totalSize measure: 23 + len(key) + len(value) (+ header bytes), computed by the driver independently of the hook-reported sizes",
     "the fake RoundTripper is the broker: its decisions (Br.Produce applied/acked/lost/code) are environment events; leader moves are represented as temporary error codes (NotLeaderForPartition) followed by a retry",
     "D1/D1b fixed in /repo (no partition writer is created after Close): one partition writer per topic-partition for the Writer's life",
+    "the broker decides on an attempt while the client still waits for it (`produce` is enabled only for an in-flight attempt): a request that a broker applies after its connection died and the client already retried elsewhere (possible in Kafka without idempotent producers) is outside the model; the wire broker drops such requests unhandled",
+    "over the real Transport (wire scenarios) an answer the broker sent but the client did not get is recorded as lost (lost1 / lost0)",
 ]
 
 def event_key(ev):
